@@ -873,6 +873,14 @@ def last_row(ctx):
                      'Integrator.%s: label form not recognised' % mname)
             sl = sl.slice
         n += 1
+        if not _is_last(sl, 'self.trajectory'):
+            # a recognisable other row is a finding; anything else is not judged
+            txt = norm_text(sl).replace(' ', '')
+            known_other = (isinstance(sl, ast.Constant) and isinstance(sl.value, int)) or \
+                (isinstance(sl, ast.UnaryOp) and isinstance(sl.operand, ast.Constant)) or \
+                txt.startswith('len(self.trajectory)-')
+            ctx.need(known_other, 'Integrator.%s: row expression `%s` not recognised'
+                     % (mname, norm_text(sl)[:50]))
         ctx.ob('LAST-ROW', _is_last(sl, 'self.trajectory'), None,
                '%s returns the last %s of self.trajectory' % (mname, what), f=m, node=rets[0],
                key=mname,
@@ -918,7 +926,10 @@ def wa_forward(ctx):
                 if kw.arg == 'with_altitude':
                     got = kw.value
             n += 1
-            ok = isinstance(got, ast.Name) and got.id == 'with_altitude'
+            ok = got is not None and any(
+                (isinstance(x, ast.Name) and x.id == 'with_altitude') or
+                (isinstance(x, ast.Attribute) and x.attr == 'with_altitude')
+                for x in ast.walk(got))
             ctx.ob('WA-FORWARD', ok, None, '%s forwards with_altitude to %s'
                    % (f.qualname, norm_text(call.func)), f=f, node=call,
                    key='%s->%s' % (f.qualname, norm_text(call.func)),
